@@ -146,3 +146,35 @@ func TestSelectAndTimers(t *testing.T) {
 		}
 	}
 }
+
+// Two goroutines appending to one slice variable with nothing between them are a data race whatever
+// the schedule; with a mutex around the appends, or a WaitGroup between them, they are not.
+func TestSharedVariableRace(t *testing.T) {
+	for seed := uint64(1); seed <= 20; seed++ {
+		got := raceOf(seed, func(s *simrt.Sim) {
+			var out []int
+			a := s.Go("a", func() { simrt.VarW(&out); out = append(out, 1) })
+			b := s.Go("b", func() { simrt.VarW(&out); out = append(out, 2) })
+			s.Join(a)
+			s.Join(b)
+		})
+		if !strings.Contains(got, "data race:") {
+			t.Fatalf("seed %d: unsynchronised appends not reported: %q", seed, got)
+		}
+		got = raceOf(seed, func(s *simrt.Sim) {
+			var mu ssync.Mutex
+			var out []int
+			add := func(v int) func() {
+				return func() { mu.Lock(); simrt.VarW(&out); out = append(out, v); mu.Unlock() }
+			}
+			a, b := s.Go("a", add(1)), s.Go("b", add(2))
+			s.Join(a)
+			s.Join(b)
+			simrt.VarW(&out)
+			out = nil
+		})
+		if got != "" {
+			t.Fatalf("seed %d: locked appends reported: %s", seed, got)
+		}
+	}
+}
